@@ -565,6 +565,39 @@ func (e *Env) equal(a, b CV, x *CE) string {
 
 // memTerm is membership of k among the first n elements of slice s ([][]byte / []string),
 // with the definitional unfolding emitted for two levels (base and step of mem).
+func (e *Env) joinTerm(s CV, n, sep string) string {
+	g := e.g
+	sl, ok := s.Ty.Underlying().(*types.Slice)
+	if !ok || g.sortOf(sl.Elem()) != "NB" {
+		fail("joined() needs a slice of strings, got %s", s.Ty)
+	}
+	h := g.elemHeapOf(sl.Elem())
+	arr := g.s.def("arr", T{g.readHeap(e.st, h, "(ptr "+s.S+")"), "(Array Int NB)"}).S
+	o := "(off " + s.S + ")"
+	g.joinUnfold(arr, o, n, sep)
+	return app("joinN", arr, o, n, sep)
+}
+
+// joinUnfold emits the definition of joinN at n and n - 1.
+func (g *Gen) joinUnfold(arr, o, n, sep string) {
+	cur := n
+	for d := 0; d < 2; d++ {
+		key := "join|" + arr + "|" + o + "|" + cur + "|" + sep
+		prev := "(- " + cur + " 1)"
+		if g.memSeen[key] {
+			g.s.hit(key)
+			cur = prev
+			continue
+		}
+		g.memSeen[key] = true
+		start := len(g.s.lines)
+		last := "(val (select " + arr + " (+ " + o + " " + prev + ")))"
+		g.s.assume(eq(app("joinN", arr, o, cur, sep), ite("(<= "+cur+" 0)", "eps", ite("(= "+cur+" 1)", last, "(cat (cat "+app("joinN", arr, o, prev, sep)+" "+sep+") "+last+")"))))
+		g.s.rec(key, start)
+		cur = prev
+	}
+}
+
 func (e *Env) memTerm(s CV, n, k string) string {
 	g := e.g
 	sl, ok := s.Ty.Underlying().(*types.Slice)
@@ -641,6 +674,11 @@ func (e *Env) call(x *CE, pos bool) CV {
 	case "member":
 		s, n, k := argv(0), argv(1), e.coerce(argv(2), "B")
 		return g.cv(e.memTerm(s, n.S, k.S), "Bool", nil)
+	case "joined":
+		// joined(s, sep): the elements of the []string s joined by sep (strings.Join), unfolded at
+		// len(s) and len(s) - 1
+		sv, sep := argv(0), e.coerce(argv(1), "B")
+		return g.cv(e.joinTerm(sv, "(len_ "+sv.S+")", sep.S), "B", nil)
 	case "fresh":
 		a := argv(0)
 		a0 := g.alloc(e.old)
